@@ -132,6 +132,40 @@ def build_disjointness(w):
         hints={'ext_funcs': {'infer_multiplicity': IH}})
     w._kfa = KFA
 
+    # ---- std::UNION (binary infix operator): view `union` of __infer_oper_call
+    for nm, a in (('UNIQ_OC', ['OperCall']), ('EMPTY_OC', ['OperCall']), ('DISJ_OC', ['OperCall', 'Opt[Obj]']), ('TD', ['OperCall'])):
+        w.ufunc(nm, a, 'bool')
+    w.trusted.append('set semantics of UNION (SEM_U*): a UNION b is duplicate-free if both are and one of them is always empty or their object types have disjoint lineages (TD); '
+                     'it is always empty iff both are; it is disjoint across iterations if one operand is always empty and the other is disjoint across iterations, or the types are disjoint and both operands are')
+    A = lambda k: 'oval(ir.args, okey(ir.args, %s)).expr' % k
+    Q = 'ctx.distinct_iterator'
+    SEM_U = ['implies(EMPTYS(%s) and EMPTYS(%s), UNIQ_OC(ir) and EMPTY_OC(ir))' % (A(0), A(1)),
+             'implies(EMPTYS(%s) and UNIQ(%s), UNIQ_OC(ir))' % (A(0), A(1)), 'implies(EMPTYS(%s) and UNIQ(%s), UNIQ_OC(ir))' % (A(1), A(0)),
+             'implies(TD(ir) and UNIQ(%s) and UNIQ(%s), UNIQ_OC(ir))' % (A(0), A(1)),
+             'implies(EMPTYS(%s) and DISJ(%s, %s), DISJ_OC(ir, %s))' % (A(0), A(1), Q, Q), 'implies(EMPTYS(%s) and DISJ(%s, %s), DISJ_OC(ir, %s))' % (A(1), A(0), Q, Q),
+             # operands of disjoint types never meet: the union is disjoint across iterations iff every operand is
+             'implies(TD(ir) and DISJ(%s, %s) and DISJ(%s, %s), DISJ_OC(ir, %s))' % (A(0), Q, A(1), Q, Q)]
+    # recorded finding C06-KF2: two non-empty UNIQUE operands that are each "disjoint across iterations" are taken to be disjoint from each other
+    KFB = '(mult[0].own == Mult.UNIQUE and mult[1].own == Mult.UNIQUE and not types_disjoint and mult[0].disjoint_union and mult[1].disjoint_union)'
+    CARD_EXT = dict(params={'ir': 'Obj'}, optional=('scope_tree', 'ctx'), returns='Card', ensures=['known(result)'], raises={'QueryError': {}})
+    OPU = 'ir.func_shortname'
+    w.contract(MULT, '__infer_oper_call', view='union', params={'ir': 'OperCall', 'scope_tree': 'Obj', 'ctx': 'ICtx'}, returns='MI',
+        requires=['%s == "std::UNION"' % OPU, 'len(ir.args) == 2'] + SEM_U,
+        modifies=['CallArg.multiplicity'],
+        ensures=['result.own != Mult.UNKNOWN',
+                 'implies((result.own == Mult.UNIQUE or result.own == Mult.EMPTY) and not %s, UNIQ_OC(ir))' % KFB,
+                 'implies(result.own == Mult.EMPTY, EMPTY_OC(ir))',
+                 'implies(result.disjoint_union and not %s, DISJ_OC(ir, %s))' % (KFB, Q)],
+        raises={'QueryError': {}},
+        loops={0: dict(fingerprint='for arg in ir.args.values()', index='i', vars={'m': 'MI'},
+                       invariant=['len(mult) == i and len(cards) == i',
+                                  'forall(0, i, lambda k: mult[k].own != Mult.UNKNOWN and implies(mult[k].own == Mult.UNIQUE or mult[k].own == Mult.EMPTY, UNIQ(%s)) '
+                                  'and implies(mult[k].own == Mult.EMPTY, EMPTYS(%s)) and implies(mult[k].disjoint_union, DISJ(%s, %s)))' % (A('k'), A('k'), A('k'), Q)])},
+        abstract={'arg_type = ctx.env.set_types[ir.args[0].expr]': dict(assigns={'arg_type': 'Obj'}),
+                  'if isinstance(arg_type, s_objtypes.ObjectType):': dict(assigns={'types_disjoint': 'bool'}, ensures=['implies(types_disjoint, TD(ir))'])},
+        hints={'var_types': {'mult': 'Seq[MI]', 'cards': 'Seq[Card]'}, 'ext_funcs': {'infer_multiplicity': IH, 'cardinality.infer_cardinality': CARD_EXT}})
+    w._kfb = KFB
+
 def build():
     w = World('C06')
     w.enum('Card', QLT, 'Cardinality')
